@@ -31,6 +31,9 @@ type Case struct {
 	PreIDs  []int       `json:"pre_ids"`
 	Writers [][]upk.Op  `json:"writers"`
 	Ack     upk.AckPlan `json:"ack"`
+	// CloseAfterUs > 0: Close is called from another goroutine that many microseconds after the writers started, i.e. while they
+	// are still writing ("all interleavings of Write/Flush/Close"). Writes that return nil count as accepted, the others not.
+	CloseAfterUs int `json:"close_after_us,omitempty"`
 }
 
 func gen(t *rapid.T) Case {
@@ -47,6 +50,9 @@ func gen(t *rapid.T) Case {
 	nw := rapid.SampledFrom([]int{1, 1, 2, 3, 4}).Draw(t, "nwriters")
 	for w := 0; w < nw; w++ {
 		c.Writers = append(c.Writers, upk.GenProgram(t, 25, 5, true))
+	}
+	if rapid.IntRange(0, 3).Draw(t, "closerace") == 0 {
+		c.CloseAfterUs = rapid.IntRange(1, 2500).Draw(t, "closeafter")
 	}
 	return c
 }
@@ -145,21 +151,36 @@ func run(c Case) (h *history, abort string, fail *ev.Failure) {
 			results[i] = upk.RunWriter(up, i, c.Writers[i], perCall, &ctr)
 		}(i)
 	}
+	var cerr error
+	closeDone := make(chan bool, 1)
+	doClose := func() {
+		ok, _ := sim.Call(perCall+2*time.Second, func() {
+			ctx, cancel := sim.Ctx(perCall)
+			defer cancel()
+			cerr = up.Close(ctx)
+		})
+		closeDone <- ok
+	}
+	if c.CloseAfterUs > 0 {
+		go func() {
+			time.Sleep(time.Duration(c.CloseAfterUs) * time.Microsecond)
+			doClose()
+		}()
+	}
 	wg.Wait()
 	for _, r := range results {
 		if r.Hung != "" {
 			return nil, r.Hung, nil
 		}
 		h.Accepted = append(h.Accepted, r.Accepted...)
-		h.WriteErrs = append(h.WriteErrs, r.Errors...)
+		if c.CloseAfterUs == 0 {
+			h.WriteErrs = append(h.WriteErrs, r.Errors...)
+		}
 	}
-	var cerr error
-	ok, _ = sim.Call(perCall+2*time.Second, func() {
-		ctx, cancel := sim.Ctx(perCall)
-		defer cancel()
-		cerr = up.Close(ctx)
-	})
-	if !ok {
+	if c.CloseAfterUs == 0 {
+		go doClose()
+	}
+	if ok := <-closeDone; !ok {
 		return nil, "Upstream.Close", nil
 	}
 	_, after, _ := rec.Snapshot()
